@@ -8,6 +8,12 @@ corr    : harness/c12.cpp (ASan+UBSan+LSan build) runs random *legal* call seque
           per-call timeout; lean/Driver/C12.lean replays every observed sequence through the model `step` with the
           generated table's signatures / error values and answers ok or the first violation                 (tie C)
 
+The generator (harness/c12.cpp) mixes: pathological literals; structured literals in one frame (comb / U-shaped polygons, polygons with a
+grid of holes, lines and strips whose vertices are strictly inside while their segments cross the boundary); very long text tokens; boundary
+numeric parameters; coordinate-like parameters placed relative to the envelope of the geometry argument (clip windows, query points); and
+interruptions armed at the k-th checkpoint poll of a call.  Three scenario openings (container/content pair with all prepared predicates,
+window operations on a polygon with holes, readers fed with long tokens) make sure the deep branches are reached in every run.
+
 A non-ok answer is either a failing input of the property itself (crash / sanitizer report / hang / leak / undocumented
 outcome / const argument changed / result aliases an input / SRID lost) — shrunk and reported with a signature
 {fn, kind, where} — or a broken tie (harness and model disagree about legality / ids / signatures), reported with
@@ -34,8 +40,14 @@ EXCLUSIONS = [
     "GEOSMakeValidParams_setMethod_r takes an enum-TYPED parameter: only its two enumerators are passed (any other int is reported by "
     "UBSan -fsanitize=enum at the callee's first read, before the callee can validate it)",
     "callbacks never throw and never re-enter GEOS except the distance callback (GEOSDistance_r)",
-    "interruption (GEOS_interruptRequest), multi-threading and context creation/destruction inside a sequence are not exercised "
-    "(C13/C14); every sequence uses one context created before and finished after it",
+    "interruption is exercised in one form only: a callback registered with GEOS_interruptRegisterCallback requests (GEOS_interruptRequest) "
+    "at the k-th checkpoint poll of ONE call, k from {1..8,10,13,20,40,100}; the callback is unregistered and GEOS_interruptCancel is called "
+    "when that call has returned.  Requests from another thread / a signal handler, a request left pending across calls, and a callback "
+    "that throws or re-enters GEOS are not generated",
+    "multi-threading and context creation/destruction inside a sequence are not exercised (C13/C14); every sequence uses one context "
+    "created before and finished after it",
+    "very long text tokens (1000..5000 and 70000 characters, in WKT / GeoJSON / HEX / WKB / DE-9IM pattern arguments) are generated; deeply "
+    "nested text (thousands of opening brackets) is not",
     "entry points not in the harness table (clustering, coverage cleaning/validation/simplification, GEOSGeom_createPointFromXY "
     "variants with Z/M, deprecated WKB setters, GEOSGridIntersectionFractions, message-handler setters, …) are only covered by "
     "the table theorems; the evidence lists how many of the generated table's entry points the stream called",
@@ -112,10 +124,15 @@ _MUTATORS = re.compile(r"^(GEOSSetSRID_r|GEOSNormalize_r|GEOSOrientPolygons_r|GE
                        r"GEOSCoordSeq_set\w+|GEOSSTRtree_\w+|GEOS\w+_set\w+)\b")
 
 
+ARM = "GEOS_interruptRegisterCallback "      # pseudo call: arms an interruption at the k-th checkpoint poll of the next call
+
+
 def dependency_closure(calls, k):
     """calls[k] plus the earlier calls that create (or modify) what it transitively uses"""
     need = set(refs_of(calls[k]))
     keep = {k}
+    if k > 0 and calls[k - 1].startswith(ARM):                 # the interruption armed for the failing call
+        keep.add(k - 1)
     for i in range(k - 1, -1, -1):
         c = calls[i]
         if creates_of(c) & need or (refs_of(c) & need and _MUTATORS.match(c)):
